@@ -39,7 +39,7 @@ Section Aead.
     length (s_nonce s) = nonce_size /\
     (N.of_nat (nonce_size + length (s_cipher s)) < 256 ^ N.of_nat 4)%N.
 
-  Hypothesis seal_length : forall k n a p, length (seal k n a p) = (length p + tag_size)%nat.
+  Definition seal_length_ok : Prop := forall k n a p, length (seal k n a p) = (length p + tag_size)%nat.
 
   Lemma envelope_length s : sealed_shape s ->
     length (envelope_of s) = (4 + nonce_size + length (s_cipher s))%nat.
@@ -49,10 +49,10 @@ Section Aead.
   Qed.
 
   (** ** Parsing an envelope the writer produced (possibly followed by more bytes) *)
-  Lemma decrypt_envelope k a s rest : sealed_shape s ->
+  Lemma decrypt_envelope k a s rest : seal_length_ok -> sealed_shape s ->
     decrypt_module key open_ k a (envelope_of s ++ rest) = open_ k (s_nonce s) a (s_cipher s).
   Proof.
-    intros [Hn Hlen]. unfold decrypt_module, envelope_of, encrypt_module. fold (s_cipher s).
+    intros seal_length [Hn Hlen]. unfold decrypt_module, envelope_of, encrypt_module. fold (s_cipher s).
     set (ct := s_cipher s) in *. set (n := s_nonce s) in *.
     set (x := N.of_nat (nonce_size + length ct)) in *.
     assert (Hct : length ct = (length (s_plain s) + tag_size)%nat) by apply seal_length.
@@ -115,37 +115,41 @@ Section Aead.
 
   Variable sealed : list sealed_mod.
 
-  Hypothesis open_seal : forall s, In s sealed ->
-    open_ (s_key s) (s_nonce s) (s_aad s) (s_cipher s) = Some (s_plain s).
+  (** The AEAD contract, relative to the log [sealed] of all Seal calls. *)
+  Definition aead_ok : Prop :=
+    seal_length_ok /\
+    (* correctness on what was sealed *)
+    (forall s, In s sealed ->
+       open_ (s_key s) (s_nonce s) (s_aad s) (s_cipher s) = Some (s_plain s)) /\
+    (* idealised authenticity *)
+    (forall k n a c p, open_ k n a c = Some p ->
+       exists s, In s sealed /\ s_key s = k /\ s_nonce s = n /\ s_aad s = a /\ s_plain s = p /\ c = s_cipher s) /\
+    (forall s, In s sealed -> sealed_shape s).
 
-  Hypothesis auth : forall k n a c p, open_ k n a c = Some p ->
-    exists s, In s sealed /\ s_key s = k /\ s_nonce s = n /\ s_aad s = a /\ s_plain s = p /\ c = s_cipher s.
-
-  Hypothesis aad_unique : forall s1 s2, In s1 sealed -> In s2 sealed -> s_aad s1 = s_aad s2 -> s1 = s2.
-
-  Hypothesis shapes : forall s, In s sealed -> sealed_shape s.
+  Definition aad_unique : Prop :=
+    forall s1 s2, In s1 sealed -> In s2 sealed -> s_aad s1 = s_aad s2 -> s1 = s2.
 
   (** A reader holding the right key and computing the writer's AAD recovers
       the plaintext of the module. *)
-  Theorem decrypt_roundtrip s : In s sealed ->
+  Theorem decrypt_roundtrip s : aead_ok -> In s sealed ->
     decrypt_module key open_ (s_key s) (s_aad s) (envelope_of s) = Some (s_plain s).
   Proof.
-    intros Hs. rewrite <- (app_nil_r (envelope_of s)).
-    rewrite decrypt_envelope by (apply shapes; exact Hs). apply open_seal. exact Hs.
+    intros (seal_length & open_seal & auth & shapes) Hs. rewrite <- (app_nil_r (envelope_of s)).
+    rewrite decrypt_envelope; [apply open_seal; exact Hs|exact seal_length|apply shapes; exact Hs].
   Qed.
 
   (** Master statement: if ANY byte string decrypts under the AAD of a sealed
       module [s], with ANY key, then the key is [s]'s key, the result is [s]'s
       plaintext, and the byte string starts with exactly [s]'s envelope. *)
   Theorem decrypt_only_original s k env p :
-    In s sealed -> wf_bytes env ->
+    aead_ok -> aad_unique -> In s sealed -> wf_bytes env ->
     decrypt_module key open_ k (s_aad s) env = Some p ->
     k = s_key s /\ p = s_plain s /\ exists rest, env = envelope_of s ++ rest.
   Proof.
-    intros Hs Hwf Hd.
+    intros (seal_length & open_seal & auth & shapes) aad_uniq Hs Hwf Hd.
     destruct (decrypt_module_inv k (s_aad s) env p Hwf Hd) as (n & ct & rest & He & Hn & Ho).
     destruct (auth _ _ _ _ _ Ho) as (s' & Hs' & Hk & Hn' & Ha & Hp & Hc).
-    assert (s' = s) by (apply aad_unique; assumption). subst s'.
+    assert (s' = s) by (apply aad_uniq; assumption). subst s'.
     split; [symmetry; exact Hk|]. split; [symmetry; exact Hp|].
     exists rest. rewrite He. unfold envelope_of, encrypt_module. fold (s_cipher s).
     rewrite Hc, Hn'. now rewrite <- !app_assoc.
@@ -153,31 +157,31 @@ Section Aead.
 
   (** ** Consequences: every kind of tampering makes the read fail *)
   Corollary wrong_key_fails s k env :
-    In s sealed -> wf_bytes env -> k <> s_key s ->
+    aead_ok -> aad_unique -> In s sealed -> wf_bytes env -> k <> s_key s ->
     decrypt_module key open_ k (s_aad s) env = None.
   Proof.
-    intros Hs Hwf Hk. destruct (decrypt_module key open_ k (s_aad s) env) as [p|] eqn:E; [|reflexivity].
-    destruct (decrypt_only_original s k env p Hs Hwf E) as [H _]. contradiction.
+    intros Hok Hu Hs Hwf Hk. destruct (decrypt_module key open_ k (s_aad s) env) as [p|] eqn:E; [|reflexivity].
+    destruct (decrypt_only_original s k env p Hok Hu Hs Hwf E) as [H _]. contradiction.
   Qed.
 
   Corollary modified_fails s k env :
-    In s sealed -> wf_bytes env ->
+    aead_ok -> aad_unique -> In s sealed -> wf_bytes env ->
     length env = length (envelope_of s) -> env <> envelope_of s ->
     decrypt_module key open_ k (s_aad s) env = None.
   Proof.
-    intros Hs Hwf Hl Hne. destruct (decrypt_module key open_ k (s_aad s) env) as [p|] eqn:E; [|reflexivity].
-    destruct (decrypt_only_original s k env p Hs Hwf E) as (_ & _ & rest & Hr).
+    intros Hok Hu Hs Hwf Hl Hne. destruct (decrypt_module key open_ k (s_aad s) env) as [p|] eqn:E; [|reflexivity].
+    destruct (decrypt_only_original s k env p Hok Hu Hs Hwf E) as (_ & _ & rest & Hr).
     exfalso. apply Hne. rewrite Hr in Hl. rewrite app_length in Hl.
     destruct rest; [now rewrite app_nil_r in Hr|cbn in Hl; lia].
   Qed.
 
   Corollary truncated_fails s k m :
-    In s sealed -> wf_bytes (envelope_of s) -> (m < length (envelope_of s))%nat ->
+    aead_ok -> aad_unique -> In s sealed -> wf_bytes (envelope_of s) -> (m < length (envelope_of s))%nat ->
     decrypt_module key open_ k (s_aad s) (firstn m (envelope_of s)) = None.
   Proof.
-    intros Hs Hwf Hm.
+    intros Hok Hu Hs Hwf Hm.
     destruct (decrypt_module key open_ k (s_aad s) (firstn m (envelope_of s))) as [p|] eqn:E; [|reflexivity].
-    destruct (decrypt_only_original s k _ p Hs (Forall_firstn _ _ _ Hwf) E) as (_ & _ & rest & Hr).
+    destruct (decrypt_only_original s k _ p Hok Hu Hs (Forall_firstn _ _ _ Hwf) E) as (_ & _ & rest & Hr).
     exfalso. apply (f_equal (@length N)) in Hr. rewrite firstn_length, app_length in Hr. lia.
   Qed.
 
@@ -192,14 +196,14 @@ Section Aead.
       rejected.  (If both envelopes were byte-for-byte equal nothing would have
       been replaced; distinct random nonces exclude that.) *)
   Corollary transplant_fails s s2 k :
-    In s sealed -> In s2 sealed -> wf_bytes (envelope_of s2) ->
+    aead_ok -> aad_unique -> In s sealed -> In s2 sealed -> wf_bytes (envelope_of s2) ->
     s_nonce s2 <> s_nonce s ->
     decrypt_module key open_ k (s_aad s) (envelope_of s2) = None.
   Proof.
-    intros Hs Hs2 Hwf Hne.
+    intros Hok Hu Hs Hs2 Hwf Hne.
     destruct (decrypt_module key open_ k (s_aad s) (envelope_of s2)) as [p|] eqn:E; [|reflexivity].
-    destruct (decrypt_only_original s k _ p Hs Hwf E) as (_ & _ & rest & Hr).
-    exfalso. apply Hne.
+    destruct (decrypt_only_original s k _ p Hok Hu Hs Hwf E) as (_ & _ & rest & Hr).
+    exfalso. apply Hne. destruct Hok as (_ & _ & _ & shapes).
     destruct (shapes s Hs) as [Hn1 _]. destruct (shapes s2 Hs2) as [Hn2 _].
     unfold envelope_of, encrypt_module in Hr. rewrite <- !app_assoc in Hr.
     apply app_eq_len in Hr; [|now rewrite !to_le_length]. destruct Hr as [_ Hr].
@@ -232,9 +236,7 @@ Section Entries.
     (forall e1 e2, In e1 es -> In e2 es ->
        e_pfx e1 = e_pfx e2 -> e_fu e1 = e_fu e2 -> e_pos e1 = e_pos e2 -> e1 = e2).
 
-  Theorem entries_aad_unique es : entries_ok es ->
-    forall s1 s2, In s1 (map sealed_of_entry es) -> In s2 (map sealed_of_entry es) ->
-    s_aad key s1 = s_aad key s2 -> s1 = s2.
+  Theorem entries_aad_unique es : entries_ok es -> aad_unique key (map sealed_of_entry es).
   Proof.
     intros (Hpos & Hlen & Huniq) s1 s2 H1 H2 Ha.
     apply in_map_iff in H1. destruct H1 as (e1 & <- & He1).
@@ -266,8 +268,8 @@ Definition toy_open (sealed : list (sealed_mod bytes)) (k n a c : bytes) : optio
   | None => None
   end.
 
-Lemma toy_seal_length k n a p : length (toy_seal k n a p) = (length p + tag_size)%nat.
-Proof. unfold toy_seal. rewrite app_length, repeat_length. reflexivity. Qed.
+Lemma toy_seal_length : seal_length_ok bytes toy_seal.
+Proof. intros k n a p. unfold toy_seal. rewrite app_length, repeat_length. reflexivity. Qed.
 
 Lemma toy_match_true k n a c s : toy_match k n a c s = true ->
   s_key bytes s = k /\ s_nonce bytes s = n /\ s_aad bytes s = a /\ c = s_cipher bytes toy_seal s.
@@ -296,4 +298,12 @@ Proof.
   intros H. injection H as <-. apply find_some in E. destruct E as [Hin E].
   apply toy_match_true in E. destruct E as (A & B & C & D).
   exists s0. repeat split; assumption.
+Qed.
+
+Lemma toy_aead_ok sealed :
+  (forall s, In s sealed -> sealed_shape bytes toy_seal s) ->
+  aead_ok bytes toy_seal (toy_open sealed) sealed.
+Proof.
+  intros Hs. split; [exact toy_seal_length|]. split; [exact (toy_open_seal sealed)|].
+  split; [exact (toy_auth sealed)|exact Hs].
 Qed.
